@@ -450,6 +450,15 @@ func (r *ref) call(fn *rFunc, args []Val) Val {
 		var v Val
 		if i < len(args) {
 			v = args[i]
+		} else if p.DefE != nil {
+			// a default is code of the declaration: it sees the scope the function
+			// was declared in (never the caller's, never the parameters)
+			if fn.env == nil {
+				r.unspec("default expression of a function without declaration frame")
+			}
+			v = r.value(r.eval(p.DefE, fn.env))
+			r.f("call.default-used")
+			r.f("call.default-expression")
 		} else if p.Def != nil {
 			v = p.Def.V
 			r.f("call.default-used")
@@ -965,6 +974,11 @@ func (r *ref) exec(s Stmt, fr *frame) (int, Val) {
 	case *Try:
 		r.f("block.try-finally")
 		ctl, rv := r.block(x.Body, r.enter(fr, x.ID))
+		if x.HasOth && ctl == ctlNormal {
+			// the otherwise block is a sibling of the try block, not its child
+			r.f("block.try-otherwise")
+			ctl, rv = r.block(x.Otherwise, r.enter(fr, x.OthID))
+		}
 		if c2, _ := r.block(x.Finally, r.enter(fr, x.FinID)); c2 != ctlNormal {
 			r.unspec("return inside finally")
 		}
